@@ -9,7 +9,9 @@ the same call repeated returns the same data; every layer of a call equals the
 corresponding layer of a *reference call* made with fresh option-less layers
 and the effective options (layer's if set, else the call's) at call level.
 """
+import contextlib
 import importlib
+import io
 import warnings
 
 import numpy as np
@@ -29,7 +31,7 @@ JOBS = {"quick": 8, "thorough": 16}
 RUN_WALL_GUARD = 900
 SEARCH_SPACE = "histories of plotting calls sharing argument objects x option lattice (each option at neither/call/layer/both level) x kernel schedules per call x failing calls"
 RULE = ("one run = one history of 2..6 plotting calls over shared argument objects (one mesh Datagroup, 3 Layers with fixed layer-level options, one resolution "
-        "dict, origin, limits); distinct = hash of the history; non-trivial = at least one object is shared by two calls and at least one option is set at "
+        "dict, origin, direction Vector/VectorBasis, limits; map directions in every documented form); distinct = hash of the history; non-trivial = at least one object is shared by two calls and at least one option is set at "
         "both levels with different values")
 ASSUMPTIONS = [
     "map and histogram2d run with plot=False except for a small fraction of steps (Agg backend); histogram1d, scatter and plot always render",
@@ -72,6 +74,8 @@ def gen_call(rng):
         c["use_origin"] = rng.random() < 0.7
         c["plot"] = rng.random() < 0.06
         c["fail"] = rng.choice([None, None, None, None, "norm", "nocell"])
+        # every documented way of giving the direction; "top"/"side" derive it from position, mass and velocity of the data
+        c["direction"] = rng.choice([None, None, None, "x", "zyx", "top", "side", "vec", "basis"])
     elif fn == "histogram2d":
         c["layers"] = rng.sample([0, 1, 2], rng.choice([0, 1, 1, 2]))
         c["limits"] = rng.random() < 0.5
@@ -196,7 +200,10 @@ class Shared:
             self.layers.append(self.dg.layer(keys[k], **kw))
         self.scatter_layer = self.dg.layer("position", mode="scatter", s=2.0)
         self.res_dict = dict(case["res_dict"])
-        self.origin = osyris.Vector(0.43, 0.52, 0.61, unit="cm")
+        self.origin = osyris.Vector(0.4317, 0.5231, 0.6113, unit="cm")  # no sample point of any generated window lies on a cell face
+        self.dir_vec = osyris.Vector(1.0, 2.0, 0.5)
+        self.dir_basis = osyris.core.vector.VectorBasis(n=osyris.Vector(0.0, 1.0, 1.0), u=osyris.Vector(1.0, 0.0, 0.0))
+        self.dir_basis_parts = [self.dir_basis.n, self.dir_basis.u, self.dir_basis.v]
         self.dxq = 0.9 * osyris.units("cm")
         self.dzq = 0.3 * osyris.units("cm")
         self.bins_list = np.array([1.0, 3.0, 8.0, 20.0, 41.0])
@@ -222,6 +229,7 @@ class Shared:
 
     def everything(self):
         return {"dg": self.dg, "layers": self.layers, "scatter_layer": self.scatter_layer, "res_dict": self.res_dict, "origin": self.origin, "dxq": self.dxq, "dzq": self.dzq,
+                "dir_vec": self.dir_vec, "dir_basis": self.dir_basis_parts,
                 "bins_list": self.bins_list, "weights": self.weights, "h1_layers": self.h1_layers, "color": self.color, "size": self.size,
                 "plot_dict": self.plot_dict, "signed": self.signed, "signed_layer": self.signed_layer}
 
@@ -301,8 +309,15 @@ def run_call(case, call, S, sims, reference_layer=None):
                 kw["origin"] = osyris.Vector(50.0, 50.0, 50.0, unit="cm")
                 kw["dx"] = 0.01 * osyris.units("cm")
             kw["plot"] = bool(call.get("plot")) and reference_layer is None
+            d = call.get("direction")
+            if d in ("x", "zyx", "top", "side"):
+                kw["direction"] = d
+            elif d == "vec":
+                kw["direction"] = S.dir_vec if reference_layer is None else osyris.Vector(1.0, 2.0, 0.5)
+            elif d == "basis":
+                kw["direction"] = S.dir_basis if reference_layer is None else osyris.core.vector.VectorBasis(n=osyris.Vector(0.0, 1.0, 1.0), u=osyris.Vector(1.0, 0.0, 0.0))
             with Seam("osyris.plot.map", "evaluate_on_grid", factory):
-                with np.errstate(all="ignore"):
+                with np.errstate(all="ignore"), contextlib.redirect_stdout(io.StringIO()):
                     return osyris.map(*layers, **kw)
         if fn == "histogram2d":
             if reference_layer is None:
@@ -477,7 +492,10 @@ def execute(case, stats):
             stats.inc("fault.failing_call_" + call["fail"])
             # an unknown call-level norm only matters for layers that do not set their own
             must_fail = call["fail"] != "norm" or not call.get("layers") or any(not case["layer_opts"][k]["norm"] for k in call["layers"])
-            if err is None and must_fail:
+            if err is None and call["fail"] == "nocell":
+                # an empty window is a provoked failure, not a required one (with "top"/"side" the call returns an empty map)
+                stats.inc("probe.empty_window_call_did_not_fail")
+            elif err is None and must_fail:
                 V("failing-call", "no-error", {"fail": call["fail"]}, step, call)
             if err is None and not must_fail:
                 stats.inc("probe.unknown_call_norm_shadowed_by_layer_norm")
@@ -582,6 +600,8 @@ def reductions(case, viol):
             yield dict(case, calls=case["calls"][:i] + [dict(c, T=1)] + case["calls"][i + 1:])
         if c.get("scatter_at") is not None:
             yield dict(case, calls=case["calls"][:i] + [dict(c, scatter_at=None)] + case["calls"][i + 1:])
+        if c.get("direction") is not None:
+            yield dict(case, calls=case["calls"][:i] + [dict(c, direction=None)] + case["calls"][i + 1:])
         for flag in ("thick", "use_origin", "plot", "limits", "weights_call"):
             if c.get(flag):
                 yield dict(case, calls=case["calls"][:i] + [dict(c, **{flag: False})] + case["calls"][i + 1:])
